@@ -61,7 +61,7 @@ pub fn info() -> PropInfo {
         id: "C04",
         run,
         replay,
-        rule: "cases = (tag sequence over names {a, ab, b, a:b, e-acute} with start/end(with trailing blanks)/empty/text items, not necessarily balanced; initial setting of check_end_names, allow_unmatched_ends, trim_markup_names_in_closing_tags, expand_empty_elements; flips of those switches before chosen read calls; slice or buffered source; after some start events the element is skipped with read_to_end / read_to_end_into, whose outcome (span or error) and final position must equal reading event by event on a clone of the reader). Oracle: a stack model fed call by call with the configuration in force at that call. Exhaustive for <=5 items over two names x all 16 static settings and for <=4 items x every single flip; proptest histories of up to 40 items with up to 6 flips. Non-trivial = a flip happens after at least one Start and at least one End is judged with name checking on after that flip. Names of 16..301 bytes (127/128/129 included) and nesting 60..300 deep occur among the generated histories. Two of the names are not valid UTF-8 and differ in one undecodable byte (matching is on bytes, whatever the decoder makes of them); some end tags carry more than blanks after the first word (`</a b>`, `</a\ta >`): the name of such a tag is all of it.",
+        rule: "cases = (tag sequence over names {a, ab, b, a:b, e-acute} with start/end(with trailing blanks)/empty/text items, not necessarily balanced; initial setting of check_end_names, allow_unmatched_ends, trim_markup_names_in_closing_tags, expand_empty_elements; flips of those switches before chosen read calls; slice or buffered source; after some start events the element is skipped with read_to_end / read_text / read_to_end_into, whose outcome (span or error) and final position must equal reading event by event on a clone of the reader). Oracle: a stack model fed call by call with the configuration in force at that call. Exhaustive for <=5 items over two names x all 16 static settings and for <=4 items x every single flip; proptest histories of up to 40 items with up to 6 flips. Non-trivial = a flip happens after at least one Start and at least one End is judged with name checking on after that flip. Names of 16..301 bytes (127/128/129 included) and nesting 60..300 deep occur among the generated histories. Two of the names are not valid UTF-8 and differ in one undecodable byte (matching is on bytes, whatever the decoder makes of them); some end tags carry more than blanks after the first word (`</a b>`, `</a\ta >`): the name of such a tag is all of it.",
         assumptions: &["whether an end tag reported as mismatched closes the innermost element is not fixed by the property: both continuations are accepted (set of possible stacks)", "the synthesized End of an expanded empty element is emitted whatever the switches are at that moment"],
         level: "exploration",
         variants: &["full"],
@@ -270,7 +270,17 @@ pub fn check(c: &Case) -> Verdict {
         );
     } else {
         let mut r = Reader::from_reader(&data[..]);
-        body!(r, r.read_event(), emu, emu.read_event(), qn, r.read_to_end(qn));
+        // every other (decodable) document is skipped with read_text instead: the same span, as text
+        let as_text = data.len() % 2 == 0 && std::str::from_utf8(&data).is_ok();
+        body!(r, r.read_event(), emu, emu.read_event(), qn, if as_text {
+            let before = r.buffer_position();
+            r.read_text(qn).map(|t| before..before + t.len() as u64)
+        } else {
+            r.read_to_end(qn)
+        });
+        if as_text && skipped > 0 {
+            v.classes.push("read_text-vs-event-by-event");
+        }
     }
     if v.fail.is_some() {
         v.nontrivial = true;
